@@ -1,5 +1,7 @@
 import TF.Proofs.MmrAcc
 import TF.Proofs.MmrAccBounded
+import TF.Proofs.MmrAccBatch
+import TF.Proofs.MmrAccVerify
 /-!
 # C11 — the MMR accumulator always commits to the current leaf list
 
@@ -12,11 +14,12 @@ Notation.  Leaves are a function `f : Nat → D` of which only `f 0 … f (n-1)`
 `peaksDirect H n f`: for each set bit of `n` from the highest down, `root` of the perfect tree over the next `2^k`
 leaves — the obviously-right definition.  `peaks H n f`: the same list by recursion on the low bit.
 `authPath H n f i`: from-scratch authentication path of leaf `i` (a *valid proof*).  `update f i x`: replace leaf `i`.
+`applyUpdates f ms`: apply the `(index, value)` updates `ms` in order (`TF/Proofs/MmrAccBatch.lean`).
 `bagSpec H z`: `z` for no peak, the peak for one, `H p₀ (H p₁ (… (H pₖ₋₂ pₖ₋₁)))` otherwise.
 All theorems hold for **every** `H` (no property of the hash is used), `none` = the Rust code panics.
 -/
 namespace TF.C11
-open TF TF.Spec.MmrAcc TF.Model.MmrAcc TF.MmrAccP TF.MmrAccB
+open TF TF.Spec.MmrAcc TF.Model.MmrAcc TF.MmrAccP TF.MmrAccB TF.MmrAccBatch
 
 variable {D : Type} (H : D → D → D)
 
@@ -65,12 +68,23 @@ theorem mutate_leaf_out_of_range_panics (a : Acc D) (m : LeafMutation D) (h : a.
   unfold mutate_leaf calculate_new_peaks_from_leaf_mutation
   rw [if_neg (by omega)]; rfl
 
-/-- **history theorem** (appends and single leaf mutations; batch mutations: `history_refines_statement` below).
-    Starting from an accumulator that holds the from-scratch peaks of `n` leaves — in particular from the empty
-    accumulator — after any finite sequence of appends and of leaf mutations carried out with the valid proof of the
-    moment (`histOk`: every mutated index is in range when its turn comes, the count stays below `2^64`), the
-    accumulator holds the leaf count and the from-scratch peaks of the current leaf list. -/
-theorem history_refines_partial (ops : List (Op D)) (n : Nat) (f : Nat → D) (hok : histOk n ops) :
+/-- **history theorem**.  Starting from an accumulator that holds the from-scratch peaks of `n` leaves — in
+    particular from the empty accumulator — after any finite sequence of appends, of leaf mutations and of batch leaf
+    mutations (`OpB.batch ms tracked`: distinct in-range leafs `ms`, any order, handing over the proofs of any in-range
+    leafs `tracked`), each carried out with the valid (from-scratch) proofs of the moment (`histOkB`: every index is
+    in range when its turn comes, the count stays below `2^64`, below `2^63` at a batch step), the accumulator holds
+    the leaf count and the from-scratch peaks of the current leaf list. -/
+theorem history_refines [BEq D] [LawfulBEq D] (ops : List (OpB D)) (n : Nat) (f : Nat → D) (hok : histOkB n ops) :
+    modelRunB H (n, f) { leaf_count := n, peaks := peaks H n f } ops
+      = some { leaf_count := (specRunB (n, f) ops).1,
+               peaks := peaks H (specRunB (n, f) ops).1 (specRunB (n, f) ops).2 } :=
+  historyB_refines_model H ops n f hok
+example : histOkB 0 [OpB.append (5 : Nat), OpB.append 6, OpB.mutate 1 7, OpB.append 8, OpB.batch [(2, 1), (0, 9)] [1, 2],
+    OpB.append 3] := by
+  simp [histOkB, opOkB, nextCountB]
+
+/-- the same for histories of appends and single mutations only, for which no equality test on digests is needed -/
+theorem history_refines_no_batch (ops : List (Op D)) (n : Nat) (f : Nat → D) (hok : histOk n ops) :
     modelRun H (n, f) { leaf_count := n, peaks := peaks H n f } ops
       = some { leaf_count := (specRun (n, f) ops).1,
                peaks := peaks H (specRun (n, f) ops).1 (specRun (n, f) ops).2 } :=
@@ -97,16 +111,12 @@ theorem verify_batch_update_rejects_dup_or_oob [BEq D] (a : Acc D) (np app : Lis
 example : ∃ m ∈ [({ leaf_index := 5, new_leaf := 0, auth := [] } : LeafMutation Nat)], (3 : Nat) ≤ m.leaf_index :=
   ⟨_, List.mem_singleton.mpr rfl, by decide⟩
 
-/-! ## batch operations — full statements, proved parts, bounded model checks -/
+/-! ## batch operations — full statements and their proofs, bounded model checks (kept as tests) -/
 
-/-- apply `(index, value)` updates in order -/
-def applyUpdates (f : Nat → D) : List (Nat × D) → Nat → D
-  | [] => f
-  | (i, x) :: rest => applyUpdates (update f i x) rest
-
-/-- FULL STATEMENT (not yet proved in general): batch mutation with distinct in-range indices and valid proofs
-    (relative to the leaf list *before* the batch), in any order, with any tracked valid proofs: the accumulator
-    holds the from-scratch peaks of the updated list and every tracked proof is the from-scratch proof afterwards -/
+/-- FULL STATEMENT: batch mutation with distinct in-range indices and valid proofs (relative to the leaf list
+    *before* the batch), in any order, with any tracked valid proofs: the accumulator holds the from-scratch peaks of
+    the updated list, every tracked proof is the from-scratch proof afterwards and exactly the changed ones are
+    reported -/
 def batch_mutate_refines_statement : Prop :=
   ∀ (D : Type) [BEq D] [LawfulBEq D] (H : D → D → D) (n : Nat) (f : Nat → D) (ms : List (Nat × D)) (tracked : List Nat),
     n < 2^63 → (ms.map Prod.fst).Nodup → (∀ m ∈ ms, m.1 < n) → (∀ t ∈ tracked, t < n) →
@@ -118,14 +128,39 @@ def batch_mutate_refines_statement : Prop :=
               (List.range tracked.length).filter fun k =>
                 (authPath H n f (tracked.getD k 0)).getD [] != (authPath H n (applyUpdates f ms) (tracked.getD k 0)).getD [])
 
-/-- proved part of `batch_mutate_refines_statement`: the empty batch (any tracked proofs of the right number, in
-    range) leaves the accumulator unchanged — in particular it does not panic -/
-theorem batch_mutate_refines_partial [BEq D] (a : Acc D) :
+/-- **batch mutation refines the from-scratch peaks** (`batch_mutate_refines_statement`, proved in full).  Invariant
+    of the loop over the batch: `new_ap_digests` maps the node index of every non-peak ancestor block of an already
+    mutated leaf (and of the leaf itself) to that block's root in the current leaf list and has no other key; a sibling
+    block without a key contains no mutated leaf, so the digest of the stored path is still right; node indices are
+    tied to blocks by the post-order numbering theory (`TF/Proofs/MmrNodeIndex.lean`).
+    A mutation that does not change the value is processed like any other (its ancestors are stored with unchanged
+    digests; no proof is reported for it). -/
+theorem batch_mutate_refines : batch_mutate_refines_statement := by
+  intro D _ _ H n f ms tracked hn hnd hms htr
+  exact batch_mutate_refines_model H n f ms tracked hn hnd hms htr
+example : (([(3, 10), (0, 11)] : List (Nat × Nat)).map Prod.fst).Nodup := by decide
+
+/-- the excluded branch: **a repeated leaf index in the batch panics** (`assert!(former_value.is_none())`), whatever
+    accumulator, proofs and tracked proofs are passed -/
+theorem batch_mutate_duplicate_panics [BEq D] (a : Acc D) (proofs : List (List D)) (idxs : List Nat)
+    (muts : List (LeafMutation D)) (h : ¬ (muts.map (·.leaf_index)).Nodup) :
+    batch_mutate_leaf_and_update_mps H a proofs idxs muts = none := batch_dup_panics H a proofs idxs muts h
+example : ¬ (([⟨2, 5, []⟩, ⟨1, 6, []⟩, ⟨2, 7, []⟩] : List (LeafMutation Nat)).map (·.leaf_index)).Nodup := by decide
+
+/-- the other excluded branch: **an out-of-range index panics** — a mutated leaf index `≥ leaf_count`, a tracked
+    leaf index `≥ leaf_count`, or proof / index lists of different lengths (the `assert!`s of the routine) -/
+theorem batch_mutate_out_of_range_panics [BEq D] (a : Acc D) (proofs : List (List D)) (idxs : List Nat)
+    (muts : List (LeafMutation D))
+    (h : (∃ mu ∈ muts, a.leaf_count ≤ mu.leaf_index) ∨ (∃ t ∈ idxs, a.leaf_count ≤ t) ∨ proofs.length ≠ idxs.length) :
+    batch_mutate_leaf_and_update_mps H a proofs idxs muts = none := batch_oob_panics H a proofs idxs muts h
+example : ∃ t ∈ [0, 4], (3 : Nat) ≤ t := ⟨4, by simp, by decide⟩
+
+/-- the empty batch leaves any accumulator unchanged — in particular it does not panic -/
+theorem batch_mutate_empty [BEq D] (a : Acc D) :
     batch_mutate_leaf_and_update_mps H a [] [] [] = some (a, [], []) := batch_empty H a
 
-/-- FULL STATEMENT (not yet proved in general): for distinct in-range indices and valid proofs, batch-update
-    verification returns true exactly when the stated peaks are the from-scratch peaks after the stated mutations
-    and appends -/
+/-- FULL STATEMENT: for distinct in-range indices and valid proofs, batch-update verification returns true exactly
+    when the stated peaks are the from-scratch peaks after the stated mutations and appends -/
 def verify_batch_update_iff_statement : Prop :=
   ∀ (D : Type) [BEq D] [LawfulBEq D] (H : D → D → D) (n : Nat) (f : Nat → D) (ms : List (Nat × D)) (apps np : List D),
     n + apps.length < 2^63 → (ms.map Prod.fst).Nodup → (∀ m ∈ ms, m.1 < n) →
@@ -134,9 +169,35 @@ def verify_batch_update_iff_statement : Prop :=
       = some (peaks H (n + apps.length)
           (applyUpdates (applyUpdates f ms) (apps.zipIdx.map fun (x, k) => (n + k, x))) == np)
 
-/-- proved part of `verify_batch_update_iff_statement`: no mutations, one appended leaf (the common "verify an append"
-    use): accepted iff the stated peaks are the from-scratch peaks of the extended list -/
-theorem verify_batch_update_iff_partial [BEq D] (n : Nat) (hn : n + 1 < 2^64) (f : Nat → D) (np : List D) :
+/-- **`verify_batch_update` accepts exactly the from-scratch peaks** (`verify_batch_update_iff_statement`, proved in
+    full; the excluded inputs — repeated or out-of-range indices — are `verify_batch_update_rejects_dup_or_oob`).
+    Invariant of the mutation loop: the running peaks are the from-scratch peaks of the current leaf list and the
+    remaining mutations carry their from-scratch proofs in it; `batch_update_from_leaf_mutation` repairs them because
+    a single mutation changes at most one digest of any other path, the one stored under a node index on the mutated
+    leaf's direct path. -/
+theorem verify_batch_update_iff : verify_batch_update_iff_statement := by
+  intro D _ _ H n f ms apps np hn hnd hms
+  exact TF.MmrAccVerify.verify_batch_update_iff_model H n f ms apps np hn hnd hms
+example : (5 : Nat) + ([1, 2] : List Nat).length < 2^63 := by decide
+
+/-- the same as an equivalence -/
+theorem verify_batch_update_accepts_iff [BEq D] [LawfulBEq D] (n : Nat) (f : Nat → D) (ms : List (Nat × D))
+    (apps np : List D) (hn : n + apps.length < 2^63) (hnd : (ms.map Prod.fst).Nodup) (hms : ∀ m ∈ ms, m.1 < n) :
+    verify_batch_update H { leaf_count := n, peaks := peaks H n f } np apps
+        (ms.map fun m => { leaf_index := m.1, new_leaf := m.2, auth := (authPath H n f m.1).getD [] }) = some true
+      ↔ np = peaks H (n + apps.length)
+          (applyUpdates (applyUpdates f ms) (apps.zipIdx.map fun (x, k) => (n + k, x))) := by
+  rw [verify_batch_update_iff D H n f ms apps np hn hnd hms]
+  constructor
+  · intro h
+    exact (eq_of_beq (Option.some.inj h)).symm
+  · intro h
+    subst h
+    rw [beq_self_eq_true]
+example : (([(1, 10), (0, 11)] : List (Nat × Nat)).map Prod.fst).Nodup := by decide
+
+/-- no mutations, one appended leaf (the common "verify an append" use), for every count below `2^64 - 1` -/
+theorem verify_one_append_iff [BEq D] (n : Nat) (hn : n + 1 < 2^64) (f : Nat → D) (np : List D) :
     verify_batch_update H { leaf_count := n, peaks := peaks H n f } np [f n] []
       = some (peaks H (n+1) f == np) := verify_one_append H n hn f np
 example : (7 : Nat) + 1 < 2^64 := by decide
